@@ -63,7 +63,7 @@ type Case struct {
 type obsNop struct{ errs *int32 }
 
 func (obsNop) OnPublishStart(ctx context.Context, _ string, _ any) context.Context { return ctx }
-func (obsNop) OnPublishComplete(context.Context, string)                          {}
+func (obsNop) OnPublishComplete(context.Context, string)                           {}
 func (obsNop) OnHandlerStart(ctx context.Context, _ string, _ bool) context.Context {
 	return ctx
 }
@@ -73,7 +73,7 @@ func (o obsNop) OnHandlerComplete(_ context.Context, _ time.Duration, err error)
 	}
 }
 func (obsNop) OnPersistStart(ctx context.Context, _ string, _ int64) context.Context { return ctx }
-func (obsNop) OnPersistComplete(context.Context, time.Duration, error)              {}
+func (obsNop) OnPersistComplete(context.Context, time.Duration, error)               {}
 
 type pval struct {
 	H, Call int
